@@ -304,6 +304,9 @@ def oracle(case, ctx):
             if lev0 != want0 or lev1 != want1 or not np.array_equal(mi.to_numpy(dtype=float), np.concatenate([A[i].T for i in range(n)], axis=0)):
                 discs.append(D("time_labels_differ:Ns->MI", "time labels %s expected %s" % (lev1[: 2 * t], want1[: 2 * t])))
             else:
+                a3 = sut(dp.from_multi_index_to_3d_numpy, mi, IX, TX)
+                if isinstance(a3, Raised) or not (isinstance(a3, np.ndarray) and a3.shape == A.shape and np.array_equal(a3, A)):
+                    discs.append(D("values_differ:Ns->MI->A3", "per-instance time labels %s: %s" % (lab[:2], repr(a3)[:160])))
                 back = sut(dp.from_multi_index_to_nested, mi, IX)
                 if isinstance(back, Raised):
                     discs.append(D("conversion_raised:MI->Ns:%s" % back.type, "per-instance time labels: " + back.msg))
